@@ -256,6 +256,7 @@ static void sdo_xfer(uint8_t cmd, uint16_t idx, uint8_t sub, uint32_t data, SdoA
     uint8_t d[8] = { cmd, (uint8_t)idx, (uint8_t)(idx >> 8), sub, 0, 0, 0, 0 };
     int first = OBS.ntx; char fr[64] = "-";
     w_put32(d + 4, data);
+    if ((cmd & 0xE3) == 0x23) for (int k = 8 - ((cmd >> 2) & 3); k < 8; k++) d[k] = (uint8_t)(0xA5 + 0x1B * k);      /* the n bytes of an expedited download that carry no data are not zero */
     memset(a, 0, sizeof *a);
     w_rx(&Node, SDO_RXID, 8, d);
     for (int i = first; i < OBS.ntx && i < W_MAX_TX; i++) if (OBS.tx[i].id == SDO_TXID) { if (a->nresp == 0) a->f = OBS.tx[i]; a->nresp++; }
